@@ -789,7 +789,8 @@ class C05(ThreadCheck):
 class C14(ThreadCheck):
     caps = [2, 3, 6]
     lean_module = 'CppUtil.Props.C14'
-    theorems = ['CppUtil.Props.c14_accessors_as_modelled', 'CppUtil.Props.c14_all_exited_all_free', 'CppUtil.Props.c14_flag_has_holder', 'CppUtil.Props.c14_solo_claim_succeeds', 'CppUtil.Props.c14_release_clears']
+    theorems = ['CppUtil.Props.c14_claim_returns', 'CppUtil.Props.c14_stepA_is_step', 'CppUtil.Props.c14_claim_returns_nonvacuous',
+                'CppUtil.Props.c14_accessors_as_modelled', 'CppUtil.Props.c14_all_exited_all_free', 'CppUtil.Props.c14_flag_has_holder', 'CppUtil.Props.c14_solo_claim_succeeds', 'CppUtil.Props.c14_release_clears']
     categories = ['idleak']
     stuck_relevant = True
     kinds = ('id', 'id', 'epoch')
